@@ -266,6 +266,9 @@ def real_schedule(w: World) -> dict:
     R = _repo()
     z3, CapOptimize = R["z3"], R["CapOptimize"]
     CapOptimize.captured.clear()
+    # A fresh main context per call: which of several optima z3 returns otherwise depends on
+    # everything solved before in the process, and a replay could not reproduce it.
+    z3._main_ctx = None
     rec = {}
     sched = w.scheduler
     orig_add = sched._add_variables
@@ -745,7 +748,7 @@ def adversarial_precedence(w: World, rec: dict) -> list[str]:
     hard = [e[1] for e in opt.log if e[0] == "hard"]
     consts = consts_of(hard)
     offered = {t.unique_name: t for t in rec["tasks"]}
-    s = z3.Solver()
+    s = z3.Solver(ctx=opt.ctx)  # the context of the captured terms (a fresh one per call)
     s.add(*hard)
     found = []
     for c in rec["tasks"]:
@@ -775,8 +778,106 @@ def adversarial_precedence(w: World, rec: dict) -> list[str]:
                 if r == z3.sat:
                     m = s.model()
                     vals = {k: str(m.eval(v, model_completion=True)) for k, v in consts.items() if k in (f"I:{c.unique_name}_start", f"I:{par.unique_name}_start")}
-                    found.append((cls, f"satisfying assignment of the captured assertions: {what} {vals}"))
+                    found.append((cls, f"{what} {vals}"))
                 s.pop()
+    return found
+
+
+# ---- C10: adversarial queries on the captured real assertions --------------
+
+
+def adversarial_c10(w: World, rec: dict) -> list:
+    """Ask z3 for a satisfying assignment of the CAPTURED REAL hard assertions (any feasible
+    solution, not only the optimum) in which a placed task names no existing worker, starts
+    before now / its known release, or in which up to three offered tasks (plus the RUNNING
+    tasks of the worker) occupy one worker at one instant although every choice of their
+    strategies exceeds the worker's total capacity (durations: each task's fastest strategy)."""
+    R = _repo()
+    z3 = R["z3"]
+    opt = rec["opt"]
+    hard = [e[1] for e in opt.log if e[0] == "hard"]
+    consts = consts_of(hard)
+    nW = len(rec["workers"])
+    s = z3.Solver(ctx=opt.ctx)  # the context of the captured terms (a fresh one per call)
+    s.add(*hard)
+    found = []
+
+    def ask(q):
+        s.push()
+        s.add(q)
+        r = s.check()
+        s.pop()
+        return r == z3.sat
+
+    info = []
+    for t in rec["tasks"]:
+        pc = consts.get(f"B:{t.unique_name}_is_placed")
+        sc = consts.get(f"I:{t.unique_name}_start")
+        wv = consts.get(f"V{nW}:{t.unique_name}_worker")
+        if pc is None:
+            continue
+        if sc is None or wv is None:
+            if ask(pc):
+                found.append(("placed task without start / worker constant", f"{t.unique_name} can be placed"))
+            continue
+        strats = [(_t(x.runtime), _req(x)) for x in t.available_execution_strategies]
+        info.append((t, pc, sc, wv, strats))
+    keys = list(rec["workers"].keys())
+    for t, pc, sc, wv, strats in info:
+        if ask(z3.And(pc, z3.And([wv != k for k in keys]))):
+            found.append(("placed task names no existing worker", f"{t.unique_name} placed with a worker value that is no key"))
+        lo = w.now
+        if not t.release_time.is_invalid() and t.state.name != "VIRTUAL":
+            lo = max(lo, _t(t.release_time))
+        if ask(z3.And(pc, sc < lo)):
+            found.append(("placement time before now or the known release", f"{t.unique_name} can start before {lo}"))
+    cap = _caps(w)
+    for key, worker in rec["workers"].items():
+        tot = cap[worker.id]
+        names = [r.name for r, _ in worker.resources.resources]
+        double = len(set(names)) != len(names)
+        cls = "capacity exceeded at a planned instant" + (" on a worker with two resource entries of one name" if double else "")
+        running = []
+        for _, task in w.task_list:
+            if task.state.name == "RUNNING" and task.current_placement.worker_id == worker.id:
+                running.append((w.now + _t(task.remaining_time), _req(task.current_placement.execution_strategy)))
+        hit = False
+        for size in (1, 2, 3):
+            for S in itertools.combinations(info, size):
+                for with_running in ([False, True] if running else [False]):
+                    base = {}
+                    if with_running:
+                        for _end, rq in running:
+                            for rn, q in rq.items():
+                                base[rn] = base.get(rn, 0) + q
+                    over = True
+                    for combo in itertools.product(*[x[4] for x in S]):
+                        use = dict(base)
+                        for _rt, rq in combo:
+                            for rn, q in rq.items():
+                                use[rn] = use.get(rn, 0) + q
+                        if not any(q > tot.get(rn, 0) for rn, q in use.items()):
+                            over = False
+                            break
+                    if not over:
+                        continue
+                    for l in S:
+                        conds = [x[1] for x in S] + [x[3] == key for x in S]
+                        for x in S:
+                            if x is not l:
+                                conds += [x[2] <= l[2], l[2] < x[2] + min(rt for rt, _ in x[4])]
+                        if with_running:
+                            conds.append(l[2] < min(end for end, _ in running))
+                        if ask(z3.And(conds)):
+                            found.append((cls, f"{[x[0].unique_name for x in S]} together on {worker.name}" + (" with its RUNNING tasks" if with_running else "")))
+                            hit = True
+                            break
+                    if hit:
+                        break
+                if hit:
+                    break
+            if hit:
+                break
     return found
 
 
@@ -1098,19 +1199,29 @@ def oracle_for(prop, w, rec) -> list[str]:
     return []
 
 
-def _report(prop, chk, spec, w, rec, case, found_input=True):
-    """Oracles (+ adversarial query for C11) on one real outcome."""
+ADV = "satisfying assignment of the captured assertions: "
+
+
+def all_failures(prop, w, rec) -> dict:
+    """signature -> (detail, adversarial?) for one real outcome: the oracle on the returned
+    Placements and the adversarial queries on the captured assertions."""
+    out = {}
     for b in oracle_for(prop, w, rec):
-        chk.violation(f"z3 {prop}: {b}", {"planner": NAME, "prop": prop, "spec": spec, "what": b}, found_input=found_input)
-    if prop == "C11" and rec["err"] is None and rec.get("opt") is not None and rec.get("tasks"):
-        hits = adversarial_precedence(w, rec)
+        out.setdefault(f"z3 {prop}: {b}", (b, False))
+    if rec["err"] is None and rec.get("opt") is not None and rec.get("tasks"):
+        hits = adversarial_precedence(w, rec) if prop == "C11" else adversarial_c10(w, rec) if prop == "C10" else []
         for cls, what in hits:
+            out.setdefault(f"z3 {prop}: {ADV}{cls}", (what, True))
+    return out
+
+
+def _report(prop, chk, spec, w, rec, case, found_input=True):
+    """Oracles + adversarial queries on one real outcome."""
+    for sig, (what, adv) in all_failures(prop, w, rec).items():
+        if adv:
             chk.count("z3:adversarial-hit")
-            chk.violation(
-                f"z3 C11: satisfying assignment of the captured assertions: {cls}",
-                {"planner": NAME, "prop": prop, "spec": spec, "what": what, "adversarial": True},
-                found_input=found_input,
-            )
+        chk.violation(sig, {"planner": NAME, "prop": prop, "spec": spec, "what": what, "adversarial": adv}, found_input=found_input)
+    if rec["err"] is None and rec.get("opt") is not None and rec.get("tasks"):
         chk.count("z3:adversarial-queries")
 
 
@@ -1174,12 +1285,15 @@ def search(prop: str, chk, rng, tier: str) -> None:
 
 
 def replay(rp: dict) -> int:
-    """Re-run one replay against the real code alone. 1 = the failure reproduces."""
+    """Re-run one replay against the real code alone. 1 = the recorded failure reproduces."""
     spec, prop = rp["spec"], rp["prop"]
     w, rec, case = run_case(spec)
-    bad = [f"z3 {prop}: {b}" for b in oracle_for(prop, w, rec)]
-    if prop == "C11" and rp.get("adversarial") and rec["err"] is None and rec.get("opt") is not None and rec.get("tasks"):
-        bad += [f"z3 C11: {what}" for _cls, what in adversarial_precedence(w, rec)]
-    for b in bad:
-        print(f"reproduced: {b}")
-    return 1 if bad else 0
+    sigs = all_failures(prop, w, rec)
+    want = rp.get("signature")
+    hit = [s for s in sigs if want is None or s == want]
+    for s in hit:
+        print(f"reproduced: {s} :: {sigs[s][0]}"[:400])
+    for s in sigs:
+        if s not in hit:
+            print(f"(other failure on this input, not the recorded one: {s})")
+    return 1 if hit else 0
